@@ -58,11 +58,12 @@ var electAndFund = []string{"reg:c1+reg:c2+reg:c3", "fund", "e4", "vote:v1:a", "
 var scenarios = []*scenario{
 	{
 		// committee {c1,c2} in office since 8, appropriation received at 9.
-		name:     "registration",
-		warm:     electAndFund,
-		alphabet: []string{"e", "e2", "prop:A:c1", "prop:B:c2", "propbig:C:c1", "rev2:A:a", "rev2:B:a", "rev:c2:A:r", "rej:vr:A:big", "wd:A"},
-		extra:    []string{"prop:A:c1+prop:B:c2", "rev:c1:B:s", "rej:vr:B:small", "imp:vi:c1:big"},
-		depth:    [2]int{5, 7},
+		name: "registration",
+		warm: electAndFund,
+		alphabet: []string{"e", "e2", "prop:A:c1", "prop:B:c2", "propbig:C:c1", "propneg:C:c1:0", "propneg:C:c1:1", "propneg:C:c1:2",
+			"propz:D:c2", "rev2:A:a", "rev2:B:a", "rev:c2:A:r", "rej:vr:A:big", "wd:A"},
+		extra: []string{"prop:A:c1+prop:B:c2", "rev:c1:B:s", "rej:vr:B:small", "imp:vi:c1:big"},
+		depth: [2]int{5, 7},
 	},
 	{
 		// A and B registered at 10, approved by both members at 11, council-agreed at 12,
@@ -317,6 +318,11 @@ func (in *inst) noteBefore(b *types.Block) {
 			p := &propRef{label: label, hash: pl.Hash(tx.PayloadVersion()), budgets: map[uint8]common.Fixed64{},
 				kinds: map[uint8]payload.InstallmentType{}, approved: map[uint8]bool{}, withdrawn: map[uint8]bool{}}
 			for _, bd := range pl.Budgets {
+				if bd.Amount < 0 && in.bad == nil {
+					in.bad = mc.Failf("C29|negative-stage-budget-accepted",
+						"proposal %s was accepted in block %d with stage %d asking for %s (budgets %v): the committee commits the sum, each positive stage is released in full",
+						label, b.Height, bd.Stage, bd.Amount, pl.Budgets)
+				}
 				p.budgets[bd.Stage] = bd.Amount
 				p.kinds[bd.Stage] = bd.Type
 				p.total += bd.Amount
